@@ -91,6 +91,10 @@ pub fn instantiate_matrix(opts: &Opts, st: &mut Stats, thorough: bool) -> Vec<Hi
         (json!("0.01"), json!("ab")),
         (json!("-0.01"), json!("feea")),
         (json!(".5"), json!("feea")),
+        // long spellings of a value a 96-bit decimal holds exactly (zeros only beyond what fits)
+        (json!("0.002500000000000000000000000000"), json!("feea")),
+        (json!("8.0000000000000000000000000000"), json!("feea")),
+        (json!("0.0100000000000000000000000000"), json!("feea")),
         // blank but not empty: neither "no fee" nor a fee
         (json!(" "), json!(" ")),
         (json!("\t"), json!("")),
@@ -98,7 +102,7 @@ pub fn instantiate_matrix(opts: &Opts, st: &mut Stats, thorough: bool) -> Vec<Hi
         (json!(" 0.01"), json!("feea")),
         (json!("0.01 "), json!("feea")),
     ];
-    let bid_forms: Vec<(Value, Value)> = vec![(Value::Null, Value::Null), (json!("0.02"), json!("feeb")), (json!("0.02"), Value::Null), (json!(""), json!("")), (Value::Null, json!("feeb")), (json!("abc"), json!("feeb")), (json!(" "), json!(" ")), (json!(""), json!(" ")), (json!("\n"), json!("\n"))];
+    let bid_forms: Vec<(Value, Value)> = vec![(Value::Null, Value::Null), (json!("0.02"), json!("feeb")), (json!("0.02"), Value::Null), (json!(""), json!("")), (Value::Null, json!("feeb")), (json!("abc"), json!("feeb")), (json!(" "), json!(" ")), (json!(""), json!(" ")), (json!("\n"), json!("\n")), (json!("0.020000000000000000000000000000"), json!("feeb"))];
     let defects: Vec<(&str, Value)> = vec![
         ("none", Value::Null),
         ("name", json!("")),
@@ -337,6 +341,9 @@ pub fn version_matrix(opts: &Opts, st: &mut Stats) -> Vec<History> {
         }
     }
     msgs.extend(vec![
+        // a rate padded out to 30 fractional digits: a parseable rate (its value is held exactly)
+        json!({"ask_fee_rate": "0.030000000000000000000000000000", "ask_fee_account": "feeb"}),
+        json!({"bid_fee_rate": "0.002500000000000000000000000000", "bid_fee_account": "carol", "approvers": ["appr1"]}),
         json!({"approvers": []}),
         json!({"ask_fee_rate": "0.03"}),
         json!({"bid_fee_account": "feea"}),
@@ -421,12 +428,15 @@ pub fn version_matrix(opts: &Opts, st: &mut Stats) -> Vec<History> {
                 let id = uuid(7000 + i as u64);
                 let fee = if i % 3 == 0 { Value::Null } else { json!({"amount": "9", "denom": "q0"}) };
                 let blk = json!({"height": 7, "time": "1571797419879305533"});
+                // every other bid spells its price as earlier releases stored it: more digits than a 96-bit
+                // decimal spells, same value
+                let price = if i % 2 == 1 { "10.0000000000000000000000000000" } else { "10" };
                 let rec = if is_old(i) {
                     let one = json!({"action": {"Fill": {"base": {"amount": "1", "denom": "base"}, "fee": if i % 3 == 0 { Value::Null } else { json!({"amount": "1", "denom": "q0"}) }, "price": "10", "quote": {"amount": "10", "denom": "q0"}}}, "block_info": blk});
                     // two equal fills in one block: identical consecutive entries
-                    json!({"base": {"amount": "9", "denom": "base"}, "events": [one.clone(), one], "fee": fee, "id": id, "owner": "bobby", "price": "10", "quote": {"amount": "90", "denom": "q0"}})
+                    json!({"base": {"amount": "9", "denom": "base"}, "events": [one.clone(), one], "fee": fee, "id": id, "owner": "bobby", "price": price, "quote": {"amount": "90", "denom": "q0"}})
                 } else {
-                    json!({"base": {"amount": "9", "denom": "base"}, "accumulated_base": "2", "accumulated_quote": "20", "accumulated_fee": if i % 3 == 0 { "0" } else { "2" }, "fee": fee, "id": id, "owner": "carol", "price": "10", "quote": {"amount": "90", "denom": "q0"}})
+                    json!({"base": {"amount": "9", "denom": "base"}, "accumulated_base": "2", "accumulated_quote": "20", "accumulated_fee": if i % 3 == 0 { "0" } else { "2" }, "fee": fee, "id": id, "owner": "carol", "price": price, "quote": {"amount": "90", "denom": "q0"}})
                 };
                 h.w.store.data.insert(map_key("bid", &id), serde_json::to_vec(&rec).unwrap());
             }
